@@ -133,7 +133,8 @@ pub fn catalogue() -> Vec<Fault> {
         rdhf!("rdh.dw=2", &["E10"], AllModes, any_rdh, |r| r.dw = 2),
         rdhf!("rdh.data_format=3", &["E10"], AllModes, any_rdh, |r| r.data_format = 3),
         // ---- RDH running
-        rdhf!("running.page counter +1", &["E11"], Running, link_idx_ge2, |r| r.pages_counter += 1),
+        rdhf!("running.page counter +1", &["E11"], Running, any_rdh, |r| r.pages_counter += 1),
+        rdhf!("running.page counter +4", &["E11"], Running, any_rdh, |r| r.pages_counter += 4),
         rdhf!("running.orbit changes inside HBF", &["E11"], Running, page_ge1_data, |r| r.orbit ^= 0x100),
         rdhf!("running.trigger changes inside HBF", &["E11"], Running, page_ge1_data, |r| r.trigger_type ^= 0x4),
         rdhf!("running.fee changes inside HBF", &["E11"], Running, page_ge1_data, |r| r.fee_id = (r.fee_id & !0x3F) | (((r.fee_id & 0x3F) + 1) % 48)),
